@@ -20,7 +20,7 @@ i=s.rindex('}')
 s=s[:i]+demo+'\n}\n'
 open(p,'w').write(s)
 PY
-    demo="cargo test -p rumqttd --offline --lib c13_demo"
+    demo="cargo test -p rumqttd --offline --lib segments::"
   else
     crate=${place%%/*}
     mkdir -p $(dirname $place)
